@@ -141,7 +141,10 @@ func generate(r *runner.Run, emit func(job) bool) {
 			}
 		}
 	}
-	byRoute(cs, batchMax)
+	// not split by route: one batch (= one long-lived dispatcher, one process) carries consecutive messages with
+	// different header-name sets on two routes with different targets, so that state leaking from one delivery
+	// into the next (e.g. a recycled header map) is observable
+	flush(cs, batchMax)
 
 	// ---- sweep "publish-header": every subset of the publish atoms x 2 bodies
 	cs = nil
